@@ -93,6 +93,34 @@ def check_routing(ctx):
                     owned.add(f"the field {k} arrives as {kw.get(k, 'absent')!r} instead of {v!r}")
         ctx.check("R-ONE-DESTINATION", what, cls.node, bool(runs) and not one, "; ".join(sorted(one)) or "no path returns", examined=len(runs), construct=f"{Q}.status::{what}")
         ctx.check("R-ONLY-OWNED-KEY", f"{what}: every other field unchanged", cls.node, bool(runs) and not owned, "; ".join(sorted(owned)), examined=len(runs), construct=f"{Q}.status::fields {what}")
+    # the destination follows the rules in force when the event arrives -- not what an earlier event with the same route code met
+    histories = [
+        ("a rule added after an event with the same route code was routed to the fallback", [("event", "0/1"), ("rule", "sink0", "0", True), ("event", "0/1")],
+         [("fallback", ("const", "0/1")), ("sink0", ("const", "1"))]),
+        ("a rule replaced by a later rule for the same prefix", [("rule", "sink0", "0", True), ("event", "0/1"), ("rule", "sink1", "0", False), ("event", "0/1")],
+         [("sink0", ("const", "1")), ("sink1", ("const", "0/1"))]),
+        ("two route codes under one prefix, one bare", [("rule", "sink0", "0", True), ("event", "0/1"), ("event", "0"), ("event", "0/1")],
+         [("sink0", ("const", "1")), ("sink0", NONE), ("sink0", ("const", "1"))]),
+    ]
+    for what, steps, want in histories:
+        d, runs = _router(ctx)
+        runs = d.call(runs, "startTestRun")
+        for step in steps:
+            if step[0] == "rule":
+                runs = d.call(runs, "add_rule", [("wobj", step[1]), ("const", "route_code_prefix")], [("route_prefix", ("const", step[2])), ("consume_route", TRUE if step[3] else FALSE)])
+            else:
+                runs = d.call(runs, "status", kw=_event(("const", step[1])))
+        d.done()
+        problems = set()
+        for r in runs:
+            if r.kind == "exc":
+                problems.add(f"the history raises {r.value!r}")
+                continue
+            got = [(snk, kw.get("route_code", NONE)) for snk, meth, kw, pos in _sent(r) if meth == "status"]
+            if got != want:
+                problems.add(f"the events reach {got!r}; expected {want!r}")
+        ctx.check("R-ONE-DESTINATION", f"[history] {what}: each event goes where the rules in force send it", cls.node, bool(runs) and not problems, "; ".join(sorted(problems)) or "no path returns",
+                  examined=len(runs), construct=f"{Q}.status::history {what}")
     # no rule matches and there is no fallback: the event is refused, not dropped
     d, runs = _router(ctx, fallback=False)
     runs = d.call(d.call(runs, "startTestRun"), "status", kw=_event(("const", "9")))
@@ -169,6 +197,26 @@ def check_sinks(ctx):
         problems.add("registering sinks / starting / stopping raises")
     ctx.check("R-SINK-PAIR", "startTestRun / stopTestRun reach exactly the sinks registered for them, once per run; a rule added mid-run is started at once", cls.node, n > 0 and not problems,
               "; ".join(sorted(problems)) or "no path returns", examined=n, construct=f"{Q}::sink-pair")
+    # a second run on the same router: every sink registered for start / stop -- before the first run or in the middle of it -- takes part again
+    d, runs = _router(ctx)
+    runs = d.call(runs, "add_rule", [("wobj", "sink0"), ("const", "route_code_prefix")], [("route_prefix", ("const", "0")), ("do_start_stop_run", TRUE)])
+    runs = d.call(runs, "startTestRun")
+    runs = d.call(runs, "add_rule", [("wobj", "sink2"), ("const", "test_id")], [("test_id", ("const", "pkg.T")), ("do_start_stop_run", TRUE)])
+    runs = d.call(runs, "stopTestRun")
+    runs = d.call(runs, "startTestRun")
+    runs = d.call(runs, "stopTestRun")
+    d.done()
+    again = set()
+    for r in runs:
+        if r.kind != "val":
+            again.add(f"the second run raises {r.value!r}")
+            continue
+        for snk in ("fallback", "sink0", "sink2"):
+            got = [meth for s_, meth, kw, pos in _sent(r) if s_ == snk and meth in ("startTestRun", "stopTestRun")]
+            if got != ["startTestRun", "stopTestRun", "startTestRun", "stopTestRun"]:
+                again.add(f"over two runs {snk} receives {got}; expected to be started and stopped with each of them")
+    ctx.check("R-SINK-PAIR", "a second run starts and stops every registered sink again, also one that joined in the middle of the first run", cls.node, bool(runs) and not again,
+              "; ".join(sorted(again)) or "no path returns", examined=len(runs), construct=f"{Q}::second-run")
     # a rule added before the run is not started early; do_start_stop_run=False on the fallback keeps it out
     d, runs = _router(ctx)
     runs = d.call(runs, "add_rule", [("wobj", "sink0"), ("const", "test_id")], [("test_id", ("const", "pkg.T")), ("do_start_stop_run", TRUE)])
